@@ -124,3 +124,32 @@ def replay_logical(ctx, body):
         H.log(f.read())
     H.log("VERDICT " + json.dumps(verdict))
     return 1 if verdict["bad"] else 0
+
+
+NEIGHBOUR_TYPES = ["cmp", "str8", "opq4", "arr3", "enum", "enumn", "vls", "ref", "i32", "f64"]
+
+
+def neighbour_cases(tag, sessions):
+    """Every kind of dataset the write API can create (its creation path reserves header space in its own way) followed by a
+    plain dataset, then attributes - small ones and one of 150 bytes, enough to outgrow an object header that was allocated
+    at its exact size - on the FIRST one; with `sessions` the attributes come after a reopen for modification."""
+    cases = []
+    for sb in (0, 2, 3):
+        for dt in NEIGHBOUR_TYPES:
+            for chunk in ([], [2]):
+                if chunk and dt in ("cmp",):
+                    continue
+                mk = {"op": "mkds", "p": "/c", "dt": dt, "dims": [4]}
+                if chunk:
+                    mk["chunk"] = chunk
+                ops = [mk, {"op": "write", "p": "/c", "data": "ext" if dt == "vls" else "seq"},
+                       {"op": "mkds", "p": "/d", "dt": "i32", "dims": [6]}, {"op": "write", "p": "/d", "data": "neg"}]
+                if sessions:
+                    ops += [{"op": "session"}, {"op": "opends", "p": "/c"}]
+                ops += [{"op": "attr", "p": "/c", "n": "a1", "v": "i32"}, {"op": "attr", "p": "/c", "n": "a2", "v": "s150"},
+                        {"op": "attr", "p": "/c", "n": "a3", "v": "ad3"}, {"op": "attr", "p": "/c", "n": "a4", "v": "s150"}]
+                if sessions:
+                    ops += [{"op": "session"}, {"op": "mkgroup", "p": "/g"}]
+                cases.append({"cfg": {"sb": sb, "rb": "", "style": 0, "tag": tag}, "ops": ops})
+    return cases
+
